@@ -2,6 +2,8 @@
 //! usage: vreplay <scenario> key=value ...     output: key=value lines on stdout
 use std::collections::HashMap;
 
+mod cluster;
+mod mailbox;
 mod ratelim;
 
 pub struct Args(HashMap<String, String>);
@@ -42,6 +44,11 @@ fn main() {
     match scenario.as_str() {
         "ratelim_refresh" => ratelim::refresh(&args),
         "ratelim_window" => ratelim::window(&args),
+        "mailbox" => mailbox::run(&args),
+        "elect" => cluster::elect(&args),
+        "elect_search" => cluster::elect_search(&args),
+        "frame_len" => cluster::frame_len(&args),
+        "codec" => cluster::codec(&args),
         other => {
             eprintln!("unknown scenario {other}");
             std::process::exit(3);
